@@ -33,7 +33,11 @@ def norm(host, port):
     """canonical form of a destination for comparison: address literals as addresses"""
     h = host.strip('[]')
     try:
-        return ('ip', str(ipaddress.ip_address(h)), port)
+        a = ipaddress.ip_address(h)
+        # an IPv4-mapped IPv6 address is that IPv4 destination: one destination, two spellings
+        if a.version == 6 and a.ipv4_mapped is not None:
+            a = a.ipv4_mapped
+        return ('ip', str(a), port)
     except ValueError:
         return ('name', host, port)
 
